@@ -269,6 +269,9 @@ func csValue(rng *rand.Rand, t reflect.Type, fields []csField) reflect.Value {
 			}
 			s := reflect.MakeSlice(fv.Type(), n, n)
 			for k := 0; k < n; k++ {
+				if f.spec.class != "time" && rng.Intn(5) == 0 {
+					continue // a zero element is an element (never null because the collection field says omitempty)
+				}
 				f.spec.gen(rng, s.Index(k), f.schema)
 			}
 			fv.Set(s)
@@ -276,7 +279,9 @@ func csValue(rng *rand.Rand, t reflect.Type, fields []csField) reflect.Value {
 			m := reflect.MakeMap(fv.Type())
 			for k := 0; k < rng.Intn(3); k++ {
 				e := reflect.New(f.spec.typ).Elem()
-				f.spec.gen(rng, e, f.schema)
+				if f.spec.class == "time" || rng.Intn(5) != 0 {
+					f.spec.gen(rng, e, f.schema)
+				}
 				m.SetMapIndex(reflect.ValueOf(fmt.Sprintf("k%d", k)), e)
 			}
 			fv.Set(m)
